@@ -328,13 +328,17 @@ class TrajectoryCalc:
             # Check height of trajectory at the zero distance (using current self.barrel_elevation)
             t = self._integrate(shot_info, zero_distance, zero_distance, TrajFlag.NONE)[0]
             height = t.height >> Distance.Foot
+            # The trajectory is sampled where the loop stopped, up to a step beyond zero_distance: compare it with the
+            # height of the sight line at that very distance (for a level sight line this is height_at_zero = 0)
+            height_at_zero = math.tan(self.look_angle) * (t.distance >> Distance.Foot)
             zero_finding_error = math.fabs(height - height_at_zero)
             if _verif_sink is not None:
                 _verif_sink("ziter", self, {"i": iterations_count, "elevation": self.barrel_elevation, "row": t,
                                             "height": height, "error": zero_finding_error})
             if zero_finding_error > _cZeroFindingAccuracy:
                 # Adjust barrel elevation to close height at zero distance
-                self.barrel_elevation -= (height - height_at_zero) / zero_distance
+                # (a change d_elev of the elevation lifts the point at distance x by x * d_elev / cos^2(elevation))
+                self.barrel_elevation -= (height - height_at_zero) / zero_distance * math.cos(self.barrel_elevation) ** 2
             else:  # last barrel_elevation hit zero!
                 break
             iterations_count += 1
